@@ -109,7 +109,9 @@ static inline _Bool c_live_run(const struct JitAllocatorBlock* b, uint32_t s, ui
   __CPROVER_requires(__CPROVER_is_fresh(self->_used_bit_vector, VERIF_W * sizeof(uint64_t))) \
   __CPROVER_requires(__CPROVER_is_fresh(self->_stop_bit_vector, VERIF_W * sizeof(uint64_t))) \
   __CPROVER_requires(c_block_snap(self))
-#define BLOCK_ASSIGNS(self) __CPROVER_assigns(*self, __CPROVER_object_whole(self->_pool), __CPROVER_object_whole(self->_used_bit_vector), __CPROVER_object_whole(self->_stop_bit_vector))
+/* frame: the bookkeeping scalars of the block, the pool's used-area counters and the two bit vectors - none of the pointers */
+#define BLOCK_ASSIGNS(self) __CPROVER_assigns(self->_flags, self->_area_used, self->_largest_unused_area, self->_search_start, self->_search_end, \
+   self->_pool->total_area_used[0], self->_pool->total_area_used[1], __CPROVER_object_whole(self->_used_bit_vector), __CPROVER_object_whole(self->_stop_bit_vector))
 #define LARGE(self) ((g_b0._flags & F_LARGE) ? 1 : 0)
 
 /* release of one live allocation: invariant kept, exactly that run disappears, accounting moves by its size */
